@@ -1414,7 +1414,8 @@ def gen_C19(tier, rng):
         dist["parse"] += 1
         cases.append(c.done(c.id, True))
     # CSV import through both entry points, error kinds
-    texts = ["a,r\n0,1\n1,0\n", "0,1\n1,0\n", "", "a,r\n0,1\n", "a,a,r\n0,0,1\n0,1,1\n1,0,0\n1,1,0\n", "a,r\n0,x\n1,0\n", "a,r\n0,1\n1\n", "a,b,result\n", "\n", "a,r\n0,1\n0,0\n", "a,r\n0,1\nx,0\n", "a,b,r\n0,0,1\n0,1,1\n1,0,0\n", "x y,r\n1,1\n0,0\n", "a,r\r\n0,T\r\n1,F", "a,r\n0,1\n1,0,1\n"]
+    texts = ["a,r\n0,1\n1,0\n", "0,1\n1,0\n", "", "a,r\n0,1\n", "a,a,r\n0,0,1\n0,1,1\n1,0,0\n1,1,0\n", "a,r\n0,x\n1,0\n", "a,r\n0,1\n1\n", "a,b,result\n", "\n", "a,r\n0,1\n0,0\n", "a,r\n0,1\nx,0\n", "a,b,r\n0,0,1\n0,1,1\n1,0,0\n", "x y,r\n1,1\n0,0\n", "a,r\r\n0,T\r\n1,F", "a,r\n0,1\n1,0,1\n",
+             ",".join(["v%d" % i for i in range(66)] + ["result"]) + "\n" + ",".join(["1"] * 67) + "\n", ",".join(["1"] * 70) + "\n"]
     for k in range(0, len(texts), 5):
         c = Case("c19_c%d" % k)
         for t_ in texts[k:k + 5]:
